@@ -44,7 +44,7 @@ CLAIMED = {
             'DESIGN.md section 3, C03'),
     'C04': ('exploration',
             'property-based testing (Hypothesis) with an invariant over the allocation map decoded by independent readers, plus a write log of the mastering pass',
-            'For each generated history (with and without reopen generations) the image is mastered through a write-recording file; the independent ISO9660/SUSP/UDF readers give the allocation map; checked: no two distinct objects overlap, everything inside the declared volume size, all descriptors agree on it, image length == declared size (+ cylinder padding on hybrids), names share data sectors iff the reference model says they are links, no byte is written twice (except the boot-info-table patch and final pad), no unused tail sector / unowned interior sector, and the library\'s own PYCDLIB_TRACK_WRITES detector stays silent (half of the cases).',
+            'For each generated history (with and without reopen generations) the image is mastered through a write-recording file; the independent ISO9660/SUSP/UDF readers give the allocation map; checked: no two distinct objects overlap, everything inside the declared volume size, all descriptors agree on it, image length == declared size (+ cylinder padding on hybrids), names share data sectors iff the reference model says they are links, no byte is written twice (except the boot-info-table patch and final pad), no unused tail sector / unowned interior sector, and the library\'s own PYCDLIB_TRACK_WRITES detector stays silent (half of the cases). One file of 1-4 GiB per run (two in quick, twelve in thorough; several UDF allocation descriptors / ISO9660 extents) is mastered into a sparse file: its ISO9660, Joliet and UDF names must describe the same sectors, which hold its bytes, and share none with its neighbours.',
             'Exact-size clause is an interpretation (see DESIGN.md C04). Structural reserves (UDF bridge gap, version descriptor sector, path-table reservation) are allowed.',
             'DESIGN.md section 3, C04'),
     'C16': ('exploration',
@@ -59,7 +59,7 @@ CLAIMED = {
             'DESIGN.md section 3, C13'),
     'C18': ('exploration',
             'property-based testing (Hypothesis): generated Unicode source names through the mangling helpers and the facades, checked against the legality predicate and by real edits',
-            'Nasty Unicode source names (case-mapping expanders, combining marks, astral, dots, semicolons, control characters; lengths around 8/12/30/207/255) at every level for files and directories: the helpers must not raise, the derived identifier must be legal (vf/legal.py) and accepted by a real add on a fresh image that writes and reopens, identity on already-legal input, and the Rock Ridge/Joliet/UDF facades must add, find, read and remove entries by the generated names.',
+            'Nasty Unicode source names (case-mapping expanders, combining marks, astral, dots, semicolons, control characters; lengths around 8/12/30/207/255) at every level for files and directories: the helpers must not raise, the derived identifier must be legal (vf/legal.py) and accepted by a real add on a fresh image that writes and reopens, identity on already-legal input, and the Rock Ridge/Joliet/UDF facades must add, find, read and remove entries by the generated names. Half of the Rock Ridge cases also put 2-4 like-named directories at the eighth level of different parents through the facade (the library relocates them under identifiers of its own making) with a file in each: every file is found by its facade path, in its own directory only, live and after reopen.',
             'Collisions of derived names inside one directory are skipped (the facades have no collision numbering).',
             'DESIGN.md section 3, C18'),
     'C20': ('exploration',
@@ -99,7 +99,7 @@ CLAIMED = {
             'DESIGN.md section 3, C07'),
     'C14': ('fault_enumeration',
             'fault enumeration with property-based placement (Hypothesis): every row of a refusal catalogue (mutator x cause x stage) injected at generated points of generated histories; twin-run byte comparison',
-            'The refusal catalogue (vf/model.py BadCatalogue, 128 rows: 11 late refusals of records that already reserved a Rock Ridge continuation area; 30 rows added after the fourth sensitivity round - a taken Rock Ridge name under fresh other names, empty-string paths per call and namespace, the Joliet-only directory calls, clear_hidden, open on an initialised object, calls without a path, an unrepresentable UDF symlink target; and bad/duplicate/over-long name or missing parent in the first, second or third namespace, wrong entry type, missing Rock Ridge name, foreign-namespace arguments, depth, invalid boot parameters with and without a boot info table, duplicate catalog names per namespace, hybrid parameters, wrong object state ...) is enumerated; each refused call is placed at a drawn point of a generated history. The image written right after the refused call must equal the one written right before it, the final image must equal that of the twin run without the refused calls, later edits must behave identically and no write may fail; finally both runs give everything back (El Torito, every file, symlink and directory, bottom-up) and the images must agree again, so that counters and reservations leaked by a refused call show when what they belong to is released. Calls of the history itself that the library refuses (the model holds them valid) are treated the same way: a third run with the first such call taken out must refuse the same later calls and master the same bytes. Evidence lists hits per catalogue row.',
+            'The refusal catalogue (vf/model.py BadCatalogue, 131 rows: 11 late refusals of records that already reserved a Rock Ridge continuation area; 30 rows added after the fourth sensitivity round - a taken Rock Ridge name under fresh other names, empty-string paths per call and namespace, the Joliet-only directory calls, clear_hidden, open on an initialised object, calls without a path, an unrepresentable UDF symlink target; and bad/duplicate/over-long name or missing parent in the first, second or third namespace, wrong entry type, missing Rock Ridge name, foreign-namespace arguments, depth, invalid boot parameters with and without a boot info table, duplicate catalog names per namespace, hybrid parameters, wrong object state ...) is enumerated; each refused call is placed at a drawn point of a generated history. The image written right after the refused call must equal the one written right before it, the final image must equal that of the twin run without the refused calls, later edits must behave identically and no write may fail; finally both runs give everything back (El Torito, every file, symlink and directory, bottom-up) and the images must agree again, so that counters and reservations leaked by a refused call show when what they belong to is released. Calls of the history itself that the library refuses (the model holds them valid) are treated the same way: a third run with the first such call taken out must refuse the same later calls and master the same bytes. Evidence lists hits per catalogue row.',
             'A catalogue call that the library accepts is handed to C13 (counted). modify_file_in_place refusals are C17.',
             'DESIGN.md section 3, C14 and appendix A'),
     'C17': ('exploration',
